@@ -130,6 +130,12 @@ GrantAllowed(ev) ==
          /\ ev.asked <= 1 /\ (ev.asked = 1 => ev.asked_same)
     ELSE ev.out = "abort" /\ ev.asked = 0
 
+\* two pointer cells compared with each other (== and !=): each is translated relative to the
+\* sandbox whose memory it lives in, so they are equal iff they designate the same object
+CellCmpAllowed(ev) ==
+  LET same == ev.sbl = ev.sbr /\ ev.offl = ev.offr IN
+  ev.out = "ok" /\ ev.eq = same /\ ev.ne = ~same
+
 \* storing application address (sb, off) into a pointer cell of sandbox `own`
 PtrStoreAllowed(ev) ==
   CASE ev.cls = "null" -> ev.out = "ok" /\ IsZero(ev.rep)
